@@ -153,11 +153,12 @@ public:
         const auto suffix = fi.suffix();
         const auto dateStr = date.toString(QStringLiteral("yyyy-MM-dd"));
 
-        QString rotatedName;
-        if (suffix.isEmpty()) {
-            rotatedName = QStringLiteral("%1.%2.%3").arg(baseName, dateStr).arg(index);
-        } else {
-            rotatedName = QStringLiteral("%1.%2.%3.%4").arg(baseName, dateStr).arg(index).arg(suffix);
+        // Concatenated rather than built with chained arg() calls: a "%3" or "%4" in the log file's
+        // own name would be taken for a place marker and replaced by the index or the suffix
+        QString rotatedName = baseName + QLatin1Char('.') + dateStr + QLatin1Char('.')
+                + QString::number(index);
+        if (!suffix.isEmpty()) {
+            rotatedName += QLatin1Char('.') + suffix;
         }
 
         return QDir(baseDir()).filePath(rotatedName);
